@@ -49,7 +49,7 @@ Preds(e) ==
       pu == e.pushes
       sm == e.samples
       n  == Len(sm)
-      prem == CompletenessPremise(st, pu, e.maxLate, e.delay = 0, e.flushAt, e.lastPushAt, e.firstPopAt, M)
+      prem == CompletenessPremise(st, pu, e.maxLate, e.delay = 0 \/ e.tsSpan <= e.delay, e.flushAt, e.lastPushAt, e.firstPopAt, M)
       \* labels of the InOrder / NoPacketTwice failures of this session (empty when the predicate holds)
       ordBad   == {Label(OrderShape(st, pu, sm, i), e, i) : i \in {j \in 2..n : ~InOrder(st, sm[j - 1], sm[j], M)}}
       twiceBad == {Label(ReuseShape(sm, i), e, i) : i \in {j \in 1..n : ReusesPacket(sm, j)}}
